@@ -33,6 +33,9 @@ const CLASS_ALPHABET: &[u32] = &[
     0xFFFD, 0xFEFF, 0xFFFE, 0xFFFF, 0x2028, 0x1B, 0x0E, 0x0F,
     // astral (Big5-HKSCS, gb18030 four-byte, plain)
     0x10000, 0x1F4A9, 0x20000, 0x2000B, 0x2008A, 0x2F9F4, 0x10FFFF,
+    // scalar values at the digit-count boundaries of decimal numeric
+    // character references (999|1000, 9999|10000, 99999|100000, 999999|1000000)
+    0x3E7, 0x3E8, 0x270F, 0x2710, 0x2711, 0x1869F, 0x186A0, 0xF423F, 0xF4240,
 ];
 
 fn scalar_from(v: u32) -> char {
